@@ -7795,6 +7795,8 @@ class Subpath:
     def __add__(self, other):
         if isinstance(other, (str, Path, PathSegment)):
             n = copy(self)
+            if isinstance(other, PathSegment):
+                other = copy(other)  # + does not adopt (and re-link) its operand
             n += other
             return n
         return NotImplemented
@@ -7806,7 +7808,7 @@ class Subpath:
             return path
         elif isinstance(other, PathSegment):
             path = Path(self)
-            path.insert(0, other)
+            path.insert(0, copy(other))
             return path
         else:
             return NotImplemented
